@@ -385,6 +385,17 @@ def expected_patterns(rows: Dict[int, Dict[str, Any]], operator: str, min_len: i
     return out
 
 
+HOST_CATS = ("cpu_op", "user_annotation", "cuda_runtime", "cuda_driver", "python_function", "Operator")
+
+
+def host_ops_outside_stacks(rows: Dict[int, Dict[str, Any]], operator: str) -> List[int]:
+    """Matching host operators that the built call stacks do not contain at all (depth -1): whatever the reason,
+    the analysis then does not consider an operator instance the property says it considers."""
+    return [i for i, r in rows.items()
+            if isinstance(r.get("name"), str) and operator in r["name"] and r.get("stream") == -1
+            and r.get("cat") in HOST_CATS and r.get("depth") == -1]
+
+
 def check(plan: Dict[str, Any], execution: Dict[str, Any], props: Optional[Set[str]] = None) -> Result:
     res = Result()
     loader.collect_probes(res, execution)
@@ -459,6 +470,9 @@ def check(plan: Dict[str, Any], execution: Dict[str, Any], props: Optional[Set[s
                 builds[rank] = n + 1
                 last_built_rank = rank
                 # --- C16
+                lost = host_ops_outside_stacks(rows, o["operator"])
+                if lost:
+                    res.violate("C16", "matching-host-operator-outside-call-stacks", {"ids": lost[:5], "n": len(lost), "op": o}, si, r["i"])
                 exp = expected_patterns(rows, o["operator"], int(o["min_len"]))
                 if exp is None:
                     res.probe("ambiguous_kernel_order")
